@@ -178,7 +178,8 @@ func init() {
 		}
 		c.Rep.Transitions += f.Transitions + k.Transitions
 		c.Rep.Bounds["queries"] = len(qs)
-		ws := []core.Window{core.Instant(45000), core.Range(10000, 30000, 11), core.Range(0, 45000, 21)}
+		// (the last one: a range query with a single step)
+		ws := []core.Window{core.Instant(45000), core.Range(10000, 30000, 11), core.Range(0, 45000, 21), core.Range(45000, 30000, 1)}
 		los := []core.Opts{{Optimizers: "none"}, {Optimizers: "none", LookbackMs: 60000}, {Optimizers: "none", QLookbackMs: 45000}}
 		optsets := []string{"none", "", "all", "s", "m", "p", "sm", "mp"}
 		if !c.Thorough() {
@@ -339,6 +340,9 @@ func c10QueriesRaw(thorough bool) []string {
 		`clamp_min(a, scalar(sum(a)))`, `clamp_max(a, scalar(a{l="0",m="1"}))`, `topk(scalar(count(a)) - 1, a)`, `topk(scalar(a{l="0",m="0"}) / 100, a)`, `bottomk by (l) (scalar(b), a)`,
 		`abs(a) + scalar(a{l="1",m="0"})`, `sum by (l) (a) * scalar(a{l="0",m="1"})`, `scalar(b) + 1`, `histogram_quantile(scalar(b) / 10, a)`, `scalar(a) + scalar(b)`,
 		`quantile(scalar(b) / 10, a)`, `a > bool scalar(a{l="0",m="0"})`, `scalar(count(a) > 2)`, `vector(scalar(a{l="0",m="1"}))`, `max(a) * time()`)
+	// @-pinned operands that are not below a pushed-down aggregation
+	qs = append(qs, `a @ 45.000`, `a - a @ 45.000`, `rate(a[1m] @ 90.000)`, `a + on (l, m) group_right a @ end()`, `abs(a @ start())`, `a @ 45.000 offset 30s`, `-a @ end()`,
+		`sum by (l) (a) / on (l) group_left b @ 60.000`, `max(a @ 45.000) + a`)
 	// every aggregation x every grouping kind, bare and under one more operator
 	for _, g := range []string{"", "by (l)", "without (m)", "without ()", "by (l, m)", "by (z)"} {
 		for _, op := range gen.SimpleAgg {
